@@ -550,9 +550,11 @@ def gen_envelopes(ctx: Check, classes) -> list[dict]:
     base = {}
     for cls in classes:
         base[cls] = transport_rpc(serialize(Gen(rng, "safe").model(cls)))
-    names = list(S._message_namespace_names)
+    from harness.translators import schemas as _schemas
+    ns_mods = _schemas.namespaces()
+    names = [m.__name__ for m in ns_mods]
     # every attribute name of every namespace, under every namespace
-    all_attrs = sorted({a for ns in S._message_namespaces for a in dir(ns)})
+    all_attrs = sorted({a for ns in ns_mods for a in dir(ns)})
     some = base[classes[0]]
     for ns in names:
         for a in all_attrs:
@@ -662,9 +664,11 @@ def expected_rejection(j) -> str | None:
     if "_type" not in j or "_ns" not in j:
         return "envelope key missing"
     ns, ty = j["_ns"], j["_type"]
-    if not isinstance(ns, str) or ns not in S._message_namespace_names:
+    from harness.translators import schemas as _schemas
+    ns_by_name = {m.__name__: m for m in _schemas.namespaces()}
+    if not isinstance(ns, str) or ns not in ns_by_name:
         return "unknown namespace"
-    mod = S._message_namespaces[S._message_namespace_names.index(ns)]
+    mod = ns_by_name[ns]
     cls = getattr(mod, ty, None) if isinstance(ty, str) else None
     if not (isinstance(cls, type) and issubclass(cls, M.MessageBase)):
         return "unknown message type"
@@ -753,9 +757,10 @@ def run(ctx: Check) -> int:
         import openpectus.protocol.serialization as S
         if not isinstance(j, dict) or not isinstance(j.get("_ns"), str) or not isinstance(j.get("_type"), str):
             return False
-        if j["_ns"] not in S._message_namespace_names:
+        ns_by_name = {m.__name__: m for m in schemas.namespaces()}
+        if j["_ns"] not in ns_by_name:
             return False
-        mod = S._message_namespaces[S._message_namespace_names.index(j["_ns"])]
+        mod = ns_by_name[j["_ns"]]
         obj = getattr(mod, j["_type"], None)
         return isinstance(obj, type) and obj in OPAQUE
     env = [c for c in env if not names_outside_class(c["j"])]
